@@ -482,4 +482,23 @@ example :
     allocatedIn r.2.events = [0x2000#64, 0x3000#64] ∧ r.2.events.length = 2 * 515 + 2 := by
   set_option maxRecDepth 100000 in decide
 
+/-- the same empty hierarchy with three frames to hand out (used by the C10 examples) -/
+def demo3 : St := { mem := fun _ _ => 0#64, allocs := [some 0x2000#64, some 0x3000#64, some 0x4000#64], log := [] }
+
+theorem demo3_allocsOK : AllocsOK demo3.mem 0x1000#64 demo3.allocs := by
+  have hroot : ∀ (q : List Nat) (f : Word), tblAt demo3.mem 0x1000#64 q = some f → f = 0x1000#64 := by
+    intro q f h
+    cases q with
+    | nil => simp [tblAt] at h; exact h.symm
+    | cons j q =>
+      have : tableOf (demo3.mem 0x1000#64 j) = none := by show tableOf 0#64 = none; decide
+      simp [tblAt, this] at h
+  refine ⟨⟨by decide, ?_⟩, ?_, ⟨by decide, ?_⟩, ?_, ⟨by decide, ?_⟩, ?_, trivial⟩
+  · intro q _ _ h; exact absurd (hroot q _ h) (by decide)
+  · intro g hg; simp [demo3] at hg; rcases hg with rfl | rfl <;> decide
+  · intro q _ _ h; exact absurd (hroot q _ h) (by decide)
+  · intro g hg; simp [demo3] at hg; subst hg; decide
+  · intro q _ _ h; exact absurd (hroot q _ h) (by decide)
+  · intro g hg; simp [demo3] at hg
+
 end X86.C09
